@@ -9,10 +9,9 @@
 
    Fix 1105ad0 (cls([]) gives an empty object) makes construction full strength too.
 
-   FULL STATEMENT over all operations (still false of the faithful model, kept visible):
-     forall C st ops, run (m_step C) st ops = run s_step st ops.
-   It fails for ONE remaining root cause (C10_empty_operand_refuted); everything else is under C10_run_refines:
-     the guards of __setitem__/append/insert test len(x) > 1, so an empty object passes as "one value".          *)
+   Fix b1d6482 (append/insert/__setitem__ test len(x) != 1) removes the last root cause: the FULL STATEMENT
+     forall C st ops, run (m_step C) st ops = run s_step st ops
+   is now proved without any guard (C10_run_refines), for every class and every history of any length.          *)
 From Coq Require Import ZArith List Lia Bool.
 From SM Require Import Model.C10_PyList Model.C10_SMList.
 Import ListNotations.
@@ -95,15 +94,14 @@ Theorem C10_iter : forall C st, m_step C st Iter = (st, Ok (Objs (map (fun t => 
 Proof. intros. cbn [m_step]. rewrite m_iter_spec. reflexivity. Qed.
 Print Assumptions C10_iter.
 
-(* ---- every operation, where the code is right.  op_ok excludes exactly: an empty object as the value of
-        setitem/append/insert *)
-Theorem C10_step_refines : forall C st o, op_ok C st o = true -> m_step C st o = s_step st o.
+(* ---- every operation, UNCONDITIONAL: every class, every state, every operation and operand *)
+Theorem C10_step_refines : forall C st o, m_step C st o = s_step st o.
 Proof. exact step_refines. Qed.
 Print Assumptions C10_step_refines.
 
 (* ---- operation sequences of ANY length (induction over the sequence): final state and every output, error kinds
         included, equal those of the list *)
-Theorem C10_run_refines : forall C ops st, run_ok C st ops = true -> run (m_step C) st ops = run s_step st ops.
+Theorem C10_run_refines : forall C ops st, run (m_step C) st ops = run s_step st ops.
 Proof. exact run_refines. Qed.
 Print Assumptions C10_run_refines.
 
@@ -111,8 +109,8 @@ Example C10_run_refines_nonvacuous :
   let ops := [Append (Same [7]); Insert (-9) (Same [8]); GetItem (-1); SetItem 1 (Same [9]); Pop 0; Extend (Same [5;6]);
               Extend (Same []); GetSlice (Some (-2)) (Some (-9)) (Some (-2)); Iter; DelItem (-2); Reverse; Pop 7; SetItem 0 Other;
               Extend (Same [4]); GetSlice (Some 3) (Some 3) None; GetSlice None None (Some 0); Pop (-1);
-              Append (Same [1;2]); CtorIter; DelSlice None None (Some (-2)); Len; Clear; Pop (-1); Alloc 2; CtorCopy] in
-  run_ok SE3like [1;2;3] ops = true /\
+              Append (Same [1;2]); CtorIter; DelSlice None None (Some (-2)); Len; Clear; Pop (-1); Alloc 2; CtorCopy; Append (Same []); Insert 0 (Same [])] in
+  run (m_step SE3like) [1;2;3] ops = run s_step [1;2;3] ops /\
   fst (run (m_step SE3like) [1;2;3] ops) = [0;0] /\
   nth 7 (snd (run (m_step SE3like) [1;2;3] ops)) (Raise TypeError) = Ok (Obj [5;3;9]) /\
   nth 11 (snd (run (m_step SE3like) [1;2;3] ops)) (Ok NoneV) = Raise IndexError /\
@@ -129,13 +127,14 @@ Print Assumptions C10_extend_full.
 Example C10_extend_ex : fst (m_step SE3like [1;2;3] (Extend (Same [9]))) = [1;2;3;9].
 Proof. reflexivity. Qed.
 
-(* the full statement is refuted for each remaining root cause *)
-Theorem C10_empty_operand_refuted : exists st,
-  m_step SE3like st (Append (Same [])) <> s_step st (Append (Same [])) /\
-  m_step SE3like st (Insert 1 (Same [])) <> s_step st (Insert 1 (Same [])) /\
-  m_step SE3like st (SetItem 1 (Same [])) <> s_step st (SetItem 1 (Same [])).
-Proof. exists [1;2;3]. vm_compute. repeat split; discriminate. Qed.
-Print Assumptions C10_empty_operand_refuted.
+(* ---- an EMPTY object is not a value: setitem/append/insert reject it like a multi-valued one (was _refuted before b1d6482) *)
+Theorem C10_empty_operand_rejected : forall C st i,
+  m_step C st (Append (Same [])) = (st, Raise ValueError) /\
+  m_step C st (Insert i (Same [])) = (st, Raise ValueError) /\
+  m_step C st (SetItem i (Same [])) = (st, Raise ValueError) /\
+  m_step C st (Extend (Same [])) = (st ++ [], Ok NoneV).
+Proof. intros. repeat split. Qed.
+Print Assumptions C10_empty_operand_rejected.
 
 (* ---- construction, FULL STRENGTH: from the object's own elements (iteration + constructor from a list of objects),
         from any list of single-valued objects (the empty list included), copy constructor, Alloc, Empty *)
@@ -169,7 +168,7 @@ Theorem C10_bad_operand_rejected : forall C st v i, bad_operand v ->
 Proof. intros C st v i H. cbn [m_step]. rewrite (bad_single_operand v H). repeat split. Qed.
 Print Assumptions C10_bad_operand_rejected.
 
-Example C10_bad_operand_nonvacuous : bad_operand Other /\ bad_operand (Same [4;5]) /\
+Example C10_bad_operand_nonvacuous : bad_operand Other /\ bad_operand (Same [4;5]) /\ bad_operand (Same []) /\
   m_step SE3like [1;2] (SetItem 9 (Same [4;5])) = ([1;2], Raise ValueError).
 Proof. vm_compute. repeat split; discriminate. Qed.
 
